@@ -11,8 +11,8 @@ def c03(tier):
         runs.append(H("c03_doall", "asan", 100, "3,5", timeout_per_case=40, params=dict(maxn=5000)))
     else:
         for t in TOPOS_THOROUGH:
-            runs.append(H("c03_doall", "plain", 4000, t, timeout_per_case=15))
-            runs.append(H("c03_doall", "asan", 600, t, timeout_per_case=60, params=dict(maxn=20000)))
+            runs.append(H("c03_doall", "plain", 2500, t, timeout_per_case=15))
+            runs.append(H("c03_doall", "asan", 350, t, timeout_per_case=60, params=dict(maxn=20000)))
         for cpus in (2, 4):
             runs.append(H("c03_doall", "plain", 600, "12,12,8", cpus=cpus, timeout_per_case=40, params=dict(oversub=1, maxn=5000)))
         runs.append(H("c03_doall", "tsan", 400, "4,4,4,4", timeout_per_case=90, params=dict(maxn=5000)))
